@@ -22,9 +22,9 @@ M1(k, v) == MapV(<< <<k, v>> >>)
 Elems(un) ==
   CASE un = "num" -> <<IntV(1), IntV(2), Flt(5, 2), Nil>>
     [] un = "str" -> <<Str(<<97>>), Str(<<66>>), Str(<<98>>)>>
-    [] un = "map" -> <<M1(KK, IntV(1)), M1(KK, IntV(2)), M1(JJ, IntV(1)), M1(KK, Nil)>>
+    [] un = "map" -> <<M1(KK, IntV(1)), M1(KK, IntV(2)), M1(JJ, IntV(1)), M1(KK, Nil), M1(KK, Str(<<49>>))>>
     [] un = "int" -> <<IntV(3), IntV(1), IntV(2)>>
-    [] un = "mix" -> <<Nil, Str(<<97>>), IntV(1), Arr(<<IntV(1)>>)>>
+    [] un = "mix" -> <<Nil, Str(<<97>>), IntV(1), Arr(<<IntV(1)>>), Arr(<<Str(<<49>>)>>)>>
 
 RECURSIVE SeqsOfLen(_, _)
 SeqsOfLen(n, m) == IF n = 0 THEN {<<>>} ELSE {<<i>> \o t : i \in 1..m, t \in SeqsOfLen(n - 1, m)}
